@@ -45,6 +45,7 @@ var c17Errors = []error{syscall.ENOSPC, syscall.EPIPE, io.ErrShortWrite}
 
 type c17Case struct {
 	S    vScenario `json:"s"`
+	X    string    `json:"x,omitempty"` // element argument ("" = the first basic element)
 	Cmd  int       `json:"cmd"` // index into vAPICmds; len(vAPICmds) = stats
 	Err  int       `json:"err"`
 	Seed uint64    `json:"seed"` // derives the sampled offsets of large reports
@@ -79,6 +80,9 @@ func checkC17(c c17Case, ctx *vCtx) *vFailure {
 	x := "x"
 	if len(c.S.Basics) > 0 {
 		x = c.S.Basics[0]
+	}
+	if c.X != "" {
+		x = c.X
 	}
 	name := "stats"
 	var call func(out io.Writer) (error, string)
@@ -144,7 +148,36 @@ func genC17(t *rapid.T) c17Case {
 		maxDays = 40
 	}
 	s := vGenScenario(t, vScenOpts{MinDays: 0, MaxDays: maxDays, MaxEntries: 6, Exact: &exact, Window: 20})
-	return c17Case{S: s, Cmd: rapid.IntRange(0, len(vAPICmds)).Draw(t, "cmd"), Err: rapid.IntRange(0, len(c17Errors)-1).Draw(t, "err"), Seed: rapid.Uint64().Draw(t, "seed")}
+	c := c17Case{S: s, Cmd: rapid.IntRange(0, len(vAPICmds)).Draw(t, "cmd"), Err: rapid.IntRange(0, len(c17Errors)-1).Draw(t, "err"), Seed: rapid.Uint64().Draw(t, "seed")}
+	// one basic element in three gets a name that needs quoting in any delimiter-separated output
+	if rapid.IntRange(0, 2).Draw(t, "special") == 0 {
+		old := s.Basics[rapid.IntRange(0, len(s.Basics)-1).Draw(t, "specialwhich")]
+		nn := old + []string{";3", "\"q", ";", ",x", "\" \"z"}[rapid.IntRange(0, 4).Draw(t, "specialform")]
+		taken := false
+		for _, l := range [][]string{s.Basics, s.Recipes, s.Unknown} {
+			for _, x := range l {
+				taken = taken || x == nn
+			}
+		}
+		if !taken {
+			s.Rename(old, nn)
+			c.S = s
+		}
+	}
+	// the element argument: any basic element, a recipe name, a case variant of one of them, or an unknown name
+	switch rapid.IntRange(0, 5).Draw(t, "xkind") {
+	case 0:
+		c.X = vToggleCase(s.Basics[rapid.IntRange(0, len(s.Basics)-1).Draw(t, "xi")])
+	case 1:
+		c.X = "no such element"
+	case 2:
+		if len(s.Recipes) > 0 {
+			c.X = s.Recipes[rapid.IntRange(0, len(s.Recipes)-1).Draw(t, "xr")]
+		}
+	default:
+		c.X = s.Basics[rapid.IntRange(0, len(s.Basics)-1).Draw(t, "xi")]
+	}
+	return c
 }
 
 // ---------------------------------------------------------------------------
